@@ -326,7 +326,7 @@ func histDep(name, msg string) F {
 	return F{Key: name + "/history-dependent", Msg: msg + " (the implementation's result depends on conversions made before)"}
 }
 
-// instOrder lists all 169 (source, destination) pairs; the reverse-order pass visits them backwards.
+// instOrder lists all 169 (source, destination) pairs of built-in types and 104 pairs with a named type; the reverse-order pass visits them backwards.
 func instOrder() [][2]int {
 	var r [][2]int
 	for s := 0; s < dyn.NB; s++ {
@@ -334,6 +334,8 @@ func instOrder() [][2]int {
 			r = append(r, [2]int{s, d})
 		}
 	}
+	// and the pairs with a named element type on one side (MyInt16, MyUint8, MyFloat32, MyFloat64)
+	r = append(r, dyn.NamedPairs()...)
 	if core.Reversed() {
 		for i, j := 0, len(r)-1; i < j; i, j = i+1, j-1 {
 			r[i], r[j] = r[j], r[i]
